@@ -30,7 +30,7 @@ CONSTANTS MaxN, MaxT, MaxEdges, MaxM, SpanVals, JSet, FixedModes, Source, EmitDo
 VARIABLES inst, pc, e, st, out
 vars == <<inst, pc, e, st, out>>
 
-File == IF Source = "file" THEN ndJsonDeserialize(IOEnv.INST_FILE) ELSE <<>>
+File == IF Source \in {"file", "both"} THEN ndJsonDeserialize(IOEnv.INST_FILE) ELSE <<>>
 
 NoInst == [id |-> 0, N |-> 0, time |-> <<>>, fixed |-> {}, edges |-> <<>>, J |-> 1, mu |-> <<1, 1>>]
 NoSt == [breaks |-> <<>>, idx |-> <<>>, D |-> 1, dC |-> <<>>, dO |-> <<>>, cnt |-> <<>>, off |-> <<>>, dur |-> <<>>,
@@ -40,7 +40,7 @@ NoOut == [outcome |-> "-", orig |-> <<>>, resc |-> <<>>, newt |-> <<>>]
 Init == inst = NoInst /\ pc = "pick" /\ e = 0 /\ st = NoSt /\ out = NoOut
 
 (* ---------------- instance choice ------------------------------------------------ *)
-Pick == /\ pc = "pick" /\ Source = "gen"
+Pick == /\ pc = "pick" /\ Source \in {"gen", "both"}
         /\ \E nn \in 2..MaxN, jj \in JSet : inst' = [NoInst EXCEPT !.N = nn, !.J = jj, !.time = <<0>>]
         /\ pc' = "times" /\ UNCHANGED <<e, st, out>>
 
@@ -68,7 +68,7 @@ Usable(r) == \E x \in 1..Len(r.edges) : r.time[r.edges[x][1]] > r.time[r.edges[x
 EdgesDone == /\ pc = "edges" /\ Usable(inst)
              /\ pc' = "index" /\ UNCHANGED <<inst, e, st, out>>
 
-Load == /\ pc = "pick" /\ Source = "file"
+Load == /\ pc = "pick" /\ Source \in {"file", "both"}
         /\ \E l \in 1..Len(File) :
              LET r == File[l] IN
              inst' = [id |-> r.id, N |-> Len(r.time), time |-> r.time, fixed |-> { r.fixed[x] : x \in 1..Len(r.fixed) },
@@ -190,7 +190,7 @@ BreaksOK == pc \in {"map", "done"} /\ out.orig # <<>> =>
     /\ out.orig[1] = 0 /\ out.resc[1] = <<0, 1>>
     /\ \A k \in 1..(Len(out.orig) - 1) : out.orig[k] < out.orig[k + 1] /\ RLe(out.resc[k], out.resc[k + 1])
     /\ out.orig[Len(out.orig)] = st.breaks[Len(st.breaks)]
-Probes == { <<h, 2>> : h \in 0..(2 * (MaxT + 1)) }                      \* half-integer points
+Probes == { <<h, 2>> : h \in 0..(2 * (st.breaks[Len(st.breaks)] + 1)) }   \* half-integers up to beyond the last break
 MapMonotone == Ok => \A x \in Probes, y \in Probes :
     RLe(x, y) => RLe(MapAt(out.orig, out.resc, x), MapAt(out.orig, out.resc, y))
 MapFixesZero == Ok => MapAt(out.orig, out.resc, <<0, 1>>) = <<0, 1>>
